@@ -70,6 +70,14 @@ func (fr *Frame) callWith(st *State, c *ssa.CallCommon, args []Val, fnv Val, pos
 			callee = cl.fn
 			return fr.staticCall(st, callee, args, cl.bindings, pos)
 		}
+		// call through a function-valued struct field, x.F(args): an `extern pkg.Type.F(x, args...)` block is the
+		// assumed contract of whatever function the field holds (first parameter = the object x)
+		if key, fa, ok := funcFieldCall(c.Value); ok {
+			if fc := vc.prog.cs.Funcs[key]; fc != nil && fc.Extern {
+				fr.safety("nilfunc", fr.curCond, "(not (= "+fnv.C[0]+" 0))", pos, "call of a nil function value")
+				return fr.applyContract(st, fc, key, nil, sig, append([]Val{fr.val(fa.X)}, args...), pos)
+			}
+		}
 		return fr.havocCall(st, "function value", sig, pos, true)
 	}
 	var bindings []Val
@@ -103,6 +111,29 @@ func (fr *Frame) staticCall(st *State, callee *ssa.Function, args []Val, binding
 		return fr.inline(st, callee, args, bindings, pos)
 	}
 	return fr.havocCall(st, key, callee.Signature, pos, false)
+}
+
+// funcFieldCall recognises a call whose function value was loaded from a struct field (t = *&x.F; t(args)) and
+// returns the contract key "pkg.Type.F" and the field address instruction.
+func funcFieldCall(v ssa.Value) (string, *ssa.FieldAddr, bool) {
+	u, ok := v.(*ssa.UnOp)
+	if !ok || u.Op != token.MUL {
+		return "", nil, false
+	}
+	fa, ok := u.X.(*ssa.FieldAddr)
+	if !ok {
+		return "", nil, false
+	}
+	pt, ok := fa.X.Type().Underlying().(*types.Pointer)
+	if !ok {
+		return "", nil, false
+	}
+	S := pt.Elem()
+	sst, ok := S.Underlying().(*types.Struct)
+	if !ok {
+		return "", nil, false
+	}
+	return structKey(S) + "." + sst.Field(fa.Field).Name(), fa, true
 }
 
 func pkgPathOf(f *ssa.Function) string {
@@ -317,6 +348,20 @@ func (fr *Frame) applyContract(st *State, fc *FuncContract, key string, callee *
 	}
 	bindResults(pvars, rnames, results)
 	penv := &Env{vc: vc, st: st, old: pre, vars: pvars, pkg: pkg, pkgName: fc.Pkg}
+	anyHeads := map[int]*State{}
+	penv.headAny = func(k int) *State {
+		if hs, ok := anyHeads[k]; ok {
+			return hs
+		}
+		// an intermediate state of the callee (athead(K, .) in its postconditions): existentially quantified for the
+		// caller, i.e. a state about which only the postconditions themselves say anything
+		hs := st.Clone()
+		for hk, srt := range vc.heapSorts {
+			hs.heap[hk] = vc.fresh(hk+"_mid", srt)
+		}
+		anyHeads[k] = hs
+		return hs
+	}
 	for _, c := range clausesFor(fc.Ensures, view) {
 		t, err := penv.EvalBool(c.E)
 		if err != nil {
@@ -395,13 +440,25 @@ func (fr *Frame) havocTarget(st *State, m Expr, env *Env) (err error) {
 				}
 			}
 		}
+		// pkg.Type.field (that field of every object of a type of another package)
+		if tn := fr.qualifiedTypeName(x.X, env.vars, env.pkg); tn != nil {
+			S := tn.Type()
+			for k, srt := range vc.heapSorts {
+				p := fieldKey(S, x.Name)
+				if k == p || strings.HasPrefix(k, p+".") {
+					st.heap[k] = vc.fresh(k, srt)
+					vc.heapRange(k, st.heap[k], false)
+				}
+			}
+			return nil
+		}
 		base := env.eval(x.X, nil)
 		ref, S, ok := derefStruct(base)
 		if !ok {
 			return fmt.Errorf("modifies target is not a struct object")
 		}
 		if g := vc.prog.ghostField(structKey(S), x.Name); g != nil {
-			t := env.resolveType(g.Type)
+			t := env.ghostType(g)
 			vc.writeKey(st, fieldKey(S, x.Name), t, ref, vc.freshVal(x.Name, t))
 			return nil
 		}
@@ -462,7 +519,7 @@ func (fr *Frame) havocTarget(st *State, m Expr, env *Env) (err error) {
 		return nil
 	case *EIdent:
 		if g := vc.prog.ghostGlobalIn(x.Name, env.specPkg()); g != nil {
-			t := env.resolveType(g.Type)
+			t := env.ghostType(g)
 			vc.writeGlobal(st, "G:ghost."+g.Pkg+"."+x.Name, t, vc.freshVal(x.Name, t))
 			return nil
 		}
@@ -474,6 +531,27 @@ func (fr *Frame) havocTarget(st *State, m Expr, env *Env) (err error) {
 		}
 	}
 	return fmt.Errorf("unsupported modifies target")
+}
+
+// qualifiedTypeName: e is `pkg.Type` (pkg not a variable in scope) naming a type of another loaded package.
+func (fr *Frame) qualifiedTypeName(e Expr, vars map[string]Val, pkg *types.Package) *types.TypeName {
+	sel, ok := e.(*ESel)
+	if !ok {
+		return nil
+	}
+	id, ok := sel.X.(*EIdent)
+	if !ok {
+		return nil
+	}
+	if _, isVar := vars[id.Name]; isVar {
+		return nil
+	}
+	p := fr.vc.prog.pkgByName(id.Name, pkg)
+	if p == nil {
+		return nil
+	}
+	tn, _ := p.Scope().Lookup(sel.Name).(*types.TypeName)
+	return tn
 }
 
 // havocObject havocs every field (real and ghost) of the struct object at ref.
@@ -497,7 +575,7 @@ func (fr *Frame) havocObject(st *State, S types.Type, ref string) {
 	env := &Env{vc: vc, pkg: nil}
 	for _, g := range vc.prog.ghostFieldsOf(structKey(S)) {
 		env.pkg = vc.prog.typesPkgByName(g.Pkg)
-		t := env.resolveType(g.Type)
+		t := env.ghostType(g)
 		vc.writeKey(st, fieldKey(S, g.Name), t, ref, vc.freshVal(g.Name, t))
 	}
 }
@@ -525,6 +603,7 @@ func (fr *Frame) lockPrimitive(st *State, key string, args []Val, pos token.Pos)
 	case "sync.Cond.Wait":
 		// requires the associated lock held; releases and re-acquires it: everything shared may change
 		vc.assumptions["assumed contract: sync.Cond.Wait (monitor havoc of all heap state; lock held before and after)"] = true
+		fr.monitorClauses(st, pos, false)
 		for k, srt := range vc.heapSorts {
 			if k == "top" || k == "held" || strings.HasPrefix(k, "F:sync.Cond.") {
 				continue
@@ -544,8 +623,47 @@ func (fr *Frame) lockPrimitive(st *State, key string, args []Val, pos token.Pos)
 	return nil, false
 }
 
-// afterWait: hook for monitor invariants (none by default).
-func (fr *Frame) afterWait(st *State) {}
+// afterWait: the monitor invariant (`monitor E` clauses of the unit) holds again when Wait returns.
+func (fr *Frame) afterWait(st *State) { fr.monitorClauses(st, token.NoPos, true) }
+
+// monitorClauses: `monitor E` of the unit under verification — an obligation before Wait releases the lock
+// (assume == false), an assumption when Wait has re-acquired it (assume == true). E is evaluated over the parameters
+// of the unit; old(...) is the unit's entry state.
+func (fr *Frame) monitorClauses(st *State, pos token.Pos, assume bool) {
+	vc := fr.vc
+	top := fr.top()
+	if top.fc == nil || top.lockOnly || len(top.fc.Monitor) == 0 {
+		return
+	}
+	vars := map[string]Val{}
+	for n, v := range top.params {
+		vars[n] = v
+	}
+	var pkg *types.Package
+	if top.fn.Pkg != nil {
+		pkg = top.fn.Pkg.Pkg
+	}
+	env := &Env{vc: vc, st: st, old: top.old, vars: vars, pkg: pkg}
+	for _, c := range top.fc.Monitor {
+		if assume {
+			t, err := env.EvalBool(c.E)
+			if err != nil {
+				continue
+			}
+			vc.fact(fr.curCond, t)
+			vc.assumptions["monitor invariant of "+top.oblFn+" assumed at wake-up from sync.Cond.Wait (rely condition on the other goroutines): "+c.Text] = true
+			continue
+		}
+		for _, part := range splitConj(c.E) {
+			t, err := env.EvalBool(part)
+			if err != nil {
+				fr.specError(c, err)
+				continue
+			}
+			vc.oblige("monitor", top.oblFn, fr.oblName("wait-monitor"), fr.curCond, t, fr.pos(pos), part.String())
+		}
+	}
+}
 
 // ---------- intrinsics (verification helper functions declared in zz_*_verif.go files) ----------
 
@@ -961,8 +1079,11 @@ func (fr *Frame) callWrites(w *writeSet, c *ssa.CallCommon, seen map[*ssa.Functi
 	}
 	var fc *FuncContract
 	var callee *ssa.Function
+	var fieldFn *ssa.FieldAddr
 	if c.IsInvoke() {
 		fc = vc.prog.cs.Funcs[ifaceMethodKey(c.Value.Type(), c.Method.Name())]
+	} else if key, fa, ok := funcFieldCall(c.Value); ok && c.StaticCallee() == nil && vc.prog.cs.Funcs[key] != nil && vc.prog.cs.Funcs[key].Extern {
+		fc, fieldFn = vc.prog.cs.Funcs[key], fa
 	} else {
 		callee = c.StaticCallee()
 		if callee == nil {
@@ -998,6 +1119,9 @@ func (fr *Frame) callWrites(w *writeSet, c *ssa.CallCommon, seen map[*ssa.Functi
 		var argTypes []types.Type
 		if c.IsInvoke() {
 			argTypes = append(argTypes, c.Value.Type())
+		}
+		if fieldFn != nil {
+			argTypes = append(argTypes, fieldFn.X.Type())
 		}
 		for _, a := range c.Args {
 			argTypes = append(argTypes, a.Type())
@@ -1094,6 +1218,16 @@ func (fr *Frame) staticModKeys(w *writeSet, m Expr, ptypes map[string]types.Type
 					w.keys[fieldKey(tn.Type(), x.Name)] = true
 					return true
 				}
+			}
+		}
+		{
+			pv := map[string]Val{}
+			for n := range ptypes {
+				pv[n] = Val{}
+			}
+			if tn := fr.qualifiedTypeName(x.X, pv, pkg); tn != nil {
+				w.keys[fieldKey(tn.Type(), x.Name)] = true
+				return true
 			}
 		}
 		bt := fr.staticType(x.X, ptypes, pkg)
